@@ -4,9 +4,20 @@
    2. finite-field invariant InvA (where the coroutines are vs. the state), by case analysis of [step];
    3. the property lemmas. *)
 From Slsk Require Import Base.Tac.
+From SlskGen Require Import C10LifeGen.
 From Slsk Require Import C10.Model C10.Prj.
 
 (* ------------------------------------------------------------------ generic helpers *)
+(* the generated constants of SlskGen.C10LifeGen are unfolded wherever a proof computes with the model *)
+Ltac unflags :=
+  unfold RANK_UNINITIALIZED, RANK_CONNECTING, RANK_CONNECTED, RANK_CLOSING, RANK_CLOSED,
+    CLOSING_STATE_UNINITIALIZED, CLOSING_STATE_CONNECTING, CLOSING_STATE_CONNECTED, CLOSING_STATE_CLOSING, CLOSING_STATE_CLOSED,
+    GUARD_UNINITIALIZED, GUARD_CONNECTING, GUARD_CONNECTED, GUARD_CLOSING, GUARD_CLOSED,
+    REGISTRY_REMOVE_ON_UNINITIALIZED, REGISTRY_REMOVE_ON_CONNECTING, REGISTRY_REMOVE_ON_CONNECTED, REGISTRY_REMOVE_ON_CLOSING,
+    REGISTRY_REMOVE_ON_CLOSED, ACCEPT_CONNECTED_BEFORE_HANDLER, CONNECT_CLOSES_ON_CANCEL, CONNECT_RECHECKS_STATE,
+    DISCONNECT_CLOSED_IN_FINALLY, READER_RECHECKS_CLOSING, SEND_SKIPS_WHEN_CLOSING, SEND_FAILURE_DISCONNECT_DETACHED,
+    ATTEMPT_CLOSES_ON_CANCEL in *.
+
 Ltac destr :=
   match goal with
   | |- context [match ?x with _ => _ end] => let E := fresh "E" in destruct x eqn:E
@@ -133,7 +144,7 @@ Proof. intros H. unfold finish_close. li_peel. Qed.
 
 Lemma LI_do_disconnect c : ListInv c -> ListInv (fst (do_disconnect c)).
 Proof.
-  intros H. unfold do_disconnect. destruct (closing (st c)); [exact H|].
+  intros H. unfold do_disconnect. destruct (guarded (st c)); [exact H|].
   destruct (writer (report CLOSING c)); cbn [fst]; try apply LI_finish_close; li_peel.
 Qed.
 
@@ -145,7 +156,7 @@ Proof.
   intros H. pose proof (LI_do_disconnect c H) as Hd. pose proof (LI_finish_close c H) as Hf.
   pose proof (LI_finalize c H) as Hz.
   unfold step. destruct (created_guard c e); [exact H|].
-  destruct e; cbn [step0]; repeat destr; try assumption;
+  destruct e; cbn [step0]; unflags; cbn [orb andb negb]; repeat destr; try assumption;
     try (match goal with E : do_disconnect c = (?c1, _) |- _ => rewrite E in Hd; cbn [fst] in Hd end);
     li_peel; try (apply LI_finalize; li_peel); try (apply LI_finish_close; li_peel);
     try (apply LI_do_disconnect; li_peel);
